@@ -159,11 +159,21 @@ def main(ck):
                     mcases.append({"kind": "mw", "prios": list(seq)})
         for _ in range(200 if ck.tier == "quick" else 3000):
             mcases.append({"kind": "mw", "prios": [rng.randint(-3, 3) for _ in range(rng.randint(0, 9))]})
+        # boundary priorities (a comparator written as a subtraction overflows on these)
+        EXT = [-2**63, -2**63 + 1, -2**62, -1, 0, 1, 2**62, 2**63 - 2, 2**63 - 1]
+        for n in (2, 3):
+            for seq in itertools.product(EXT, repeat=n):
+                if n == 2 or rng.random() < 0.25:
+                    mcases.append({"kind": "mw", "prios": list(seq)})
+        for _ in range(150 if ck.tier == "quick" else 3000):
+            mcases.append({"kind": "mw", "prios": [rng.choice(EXT + [5, -5, 7]) for _ in range(rng.randint(2, 8))]})
         # the same through $server->middleware(fn, prio) + a route, served by the real ServeMux
         for c in list(mcases)[: (120 if ck.tier == "quick" else 371)]:
             mcases.append({"kind": "mwscript", "prios": c["prios"]})
         for _ in range(60 if ck.tier == "quick" else 1000):
             mcases.append({"kind": "mwscript", "prios": [rng.randint(-2, 2) for _ in range(rng.randint(1, 7))]})
+        for _ in range(40 if ck.tier == "quick" else 600):
+            mcases.append({"kind": "mwscript", "prios": [rng.choice([-(2**63 - 1), -1, 0, 1, 2**63 - 1, 2**62]) for _ in range(rng.randint(2, 6))]})
 
     outs, rc, err = run_impl(binary, cases + mcases)
     if len(outs) != len(cases) + len(mcases):
